@@ -99,22 +99,8 @@ def o2_order(check: Check, repo: Repo, tier: str = "quick") -> None:
     want_emit = ["multi_sensitive", "insensitive_parts", "unicode_props", "_optimize_char_class(char_class_parts, ranges)"]
     ok = emit_order == want_emit
     check.oblige("O2", f"{CHOICE}::build_optimized_pattern", "emission order: sensitive multi, insensitive multi, unicode classes, character class" if ok else f"build_optimized_pattern emits {emit_order}", ok)
-    # the guard itself, decided semantically on the model (sa/ordercheck.py)
-    from ..ordercheck import check_order_independence
-
-    ioi = repo.func(CHOICE, "is_order_independent")
-    construct = f"{CHOICE}::is_order_independent"
-    alphabet, max_len = (["a", "b", "A", "B", "1"], 2) if tier == "quick" else (["a", "b", "c", "A", "B", "C", "1", "2"], 2)
-    n, bad = check_order_independence(ioi, construct, alphabet, max_len)
-    check.count("order_dependent_model_pairs", n)
-    unsound = [d for k, d in bad if k == "UNSOUND"]
-    raises = [d for k, d in bad if k == "RAISES"]
-    sig = "is_order_independent approves a regrouping that changes what the choice matches"
-    check.oblige("O2", construct, f"every order-dependent swapped pair of the model is rejected ({n} pairs)" if not unsound else sig, not unsound, sample=True,
-                 finding=Finding("O2", construct, sig, f"{sig}: e.g. {unsound[0] if unsound else ''} ({len(unsound)} of {n} order-dependent model pairs approved); build_optimized_pattern moves the second alternative in front of the first", {"witness": unsound[0] if unsound else ""}))
-    sig = "is_order_independent raises on a legal choice"
-    check.oblige("O2", construct, "total on the model" if not raises else sig, not raises,
-                 finding=Finding("O2", construct, sig, f"{sig}: e.g. {raises[0] if raises else ''}", {"witness": raises[0] if raises else ""}))
+    # the guard itself (is_order_independent) is decided end to end by O12 (sa/squashsem.py): an unsound approval shows
+    # as a pattern that matches something else than the ordered choice
 
 
 def o3_trivia(check: Check, repo: Repo) -> None:
@@ -188,13 +174,23 @@ def o4_purity(check: Check, repo: Repo) -> None:
 
 
 def o5_inplace(check: Check, repo: Repo) -> None:
+    """optimize() neither rewrites the process-wide built-in rule objects nor the Rule objects it was given."""
     fn = repo.func(OPT, "Optimizer.optimize")
     m = repo.mod(OPT)
-    store = next((n for n in ast.walk(fn) if isinstance(n, ast.Assign) and ast.unparse(n.targets[0]) == "rules[name].expression"), None)
-    if store is None:
-        raise AnalysisError(f"anchor vanished: in-place store in {OPT}::Optimizer.optimize")
-    ok, why = shared.check_premise(repo, OPT, "Optimizer.optimize", "rules[name].expression", "own-rules", store, m)
-    check.oblige("O5", f"{OPT}::Optimizer.optimize", why if ok else "the in-place store also rewrites the shared built-in rule objects", ok)
+    stores = [n for n in ast.walk(fn) if isinstance(n, ast.Assign) and isinstance(n.targets[0], ast.Attribute) and n.targets[0].attr == "expression"]
+    if not stores:
+        raise AnalysisError(f"anchor vanished: no store of a rewritten expression in {OPT}::Optimizer.optimize")
+    for store in stores:
+        target = ast.unparse(store.targets[0])
+        kind = "own-rules" if target == "rules[name].expression" else "local-copy"
+        ok, why = shared.check_premise(repo, OPT, "Optimizer.optimize", target, kind, store, m)
+        sig = "optimize() rewrites a Rule object that other parsers may share"
+        check.oblige("O5", f"{OPT}::Optimizer.optimize", f"`{target} = ...`: {why}" if ok else sig, ok,
+                     finding=Finding("O5", f"{OPT}::Optimizer.optimize", sig, f"`{ast.unparse(store)}`: {why}", {}))
+    # built-ins are skipped before any rewrite
+    src_ok = any(isinstance(st, ast.If) and ast.unparse(st.test) == "isinstance(rule, BuiltInRule)" and st.body and isinstance(st.body[-1], ast.Continue) for lp in ast.walk(fn) if isinstance(lp, ast.For) for st in lp.body)
+    check.oblige("O5", f"{OPT}::Optimizer.optimize", "built-in rule objects are skipped" if src_ok else "the shared built-in rule objects are not excluded from rewriting", src_ok,
+                 finding=Finding("O5", f"{OPT}::Optimizer.optimize", "the shared built-in rule objects are not excluded from rewriting", "Optimizer.optimize has no `if isinstance(rule, BuiltInRule): continue` at the head of its per-rule loop", {}))
 
 
 def o7_unroll(check: Check, repo: Repo) -> None:
@@ -235,16 +231,20 @@ def o7_unroll(check: Check, repo: Repo) -> None:
 
 
 def o8_inliners(check: Check, repo: Repo) -> None:
-    ib = ast.unparse(repo.func(INLINE, "inline_builtin"))
-    ok = "isinstance(expr, BuiltInRule) and expr.name != 'EOI'" in ib and "return expr.expression" in ib and ib.rstrip().endswith("return expr")
-    check.oblige("O8", f"{INLINE}::inline_builtin", "built-ins other than EOI (which produces a pair) are replaced by their body" if ok else "inline_builtin no longer keeps EOI / returns other nodes unchanged", ok)
-    isr = repo.func(INLINE, "inline_silent_rules")
-    src = ast.unparse(isr)
-    ok = "isinstance(expr, Identifier) and (not expr.tag)" in src or "isinstance(expr, Identifier) and not expr.tag" in src
-    check.oblige("O8", f"{INLINE}::inline_silent_rules", "only untagged references are inlined" if ok else "tagged references are inlined (the tag context lives on the Identifier)", ok, sample=True,
-                 finding=Finding("O8", f"{INLINE}::inline_silent_rules", "tagged references are inlined", "#t = s with s = _{ a }: the optimized parser returns a untagged", {}))
-    ok = "rule.modifier & SILENT" in src and "return rule.expression" in src and "rules.get(expr.value)" in src
-    check.oblige("O8", f"{INLINE}::inline_silent_rules", "only defined, silent rules are inlined" if ok else "inline_silent_rules inlines rules that are not (defined and silent)", ok)
+    """inline_builtin decided on model built-ins (sa/squashsem.py); inline_silent_rules is O14."""
+    from ..squashsem import check_inline_builtin
+
+    construct = f"{INLINE}::inline_builtin"
+    n, bad = check_inline_builtin(repo, construct)
+    check.count("inline_model_references", n)
+    check.oblige("O8", construct, f"on all {n} model nodes only silent built-ins are replaced by their body" if not bad else f"{len(bad)} of {n} model nodes are handled unsoundly", True)
+    cats: dict[str, list[str]] = {}
+    for cat, msg in bad:
+        cats.setdefault(cat, []).append(msg)
+    for cat, msgs in sorted(cats.items()):
+        sig = f"inline_builtin {cat}"
+        check.oblige("O8", construct, sig, False, finding=Finding("O8", construct, sig, f"{sig}: e.g. {msgs[0]}", {"witness": msgs[0]}))
+    # premise: the library's own built-ins are silent, except EOI
     builtin_silent = ast.unparse(repo.func("src/pest/grammar/rules/ascii.py", "ASCIIRule.__init__"))
     check.oblige("O8", "src/pest/grammar/rules/ascii.py::ASCIIRule.__init__", "inlined built-ins are silent (no pair is lost)", "SILENT" in builtin_silent)
 
@@ -299,9 +299,80 @@ def o11_skip_search(check: Check, repo: Repo, rep) -> None:
         raise AnalysisError("anchor vanished: no SkipUntil.generate skeleton")
 
 
+def o12_squash_semantics(check: Check, repo: Repo, tier: str) -> None:
+    """What squash_choice returns matches exactly what the ordered choice matches (sa/squashsem.py)."""
+    from ..squashsem import check_squash
+
+    construct = f"{SQUASH}::squash_choice"
+    # k / K / U+212A KELVIN SIGN: one case-folding class with three members, two of them not each other's upper()/lower()
+    alphabet, max_len, triples = (["k", "K", "\u212a"], 2, False) if tier == "quick" else (["k", "K", "\u212a", "\u00df", "1"], 2, True)
+    n, squashed, bad = check_squash(repo, construct, alphabet, max_len, triples)
+    check.count("squash_model_choices", n)
+    check.count("squash_model_choices_rewritten", squashed)
+    sig = "squash_choice replaces an ordered choice by a pattern that matches something else"
+    cats: dict[str, list[str]] = {}
+    for cat, msg in bad:
+        cats.setdefault(cat, []).append(msg)
+    check.oblige("O12", construct, f"on all {squashed} model choices it rewrites (of {n}), the emitted pattern and the ordered choice agree on every model input" if not bad else f"{len(bad)} of {squashed} rewritten model choices disagree (reported per category below)", True, sample=True)
+    for cat, msgs in sorted(cats.items()):
+        full = f"{sig}: {cat}"
+        check.oblige("O12", construct, full, False, sample=True,
+                     finding=Finding("O12", construct, full, f"{full}: e.g. {msgs[0]} ({len(msgs)} of {squashed} rewritten model choices)", {"witness": msgs[0]}))
+
+
+def o14_inline_semantics(check: Check, repo: Repo) -> None:
+    """inline_silent_rules replaces a reference only where entering the rule is invisible (sa/squashsem.py)."""
+    from ..squashsem import check_inline_silent
+
+    construct = "src/pest/grammar/optimizers/inliners.py::inline_silent_rules"
+    n, bad = check_inline_silent(repo, construct)
+    check.count("inline_model_references", n)
+    check.oblige("O14", construct, f"on all {n} (modifier, name, tag) combinations a reference is inlined only where entering the rule is invisible" if not bad else f"{len(bad)} of {n} combinations are inlined unsoundly (reported per category below)", True)
+    cats: dict[str, list[str]] = {}
+    for cat, msg in bad:
+        cats.setdefault(cat, []).append(msg)
+    for cat, msgs in sorted(cats.items()):
+        sig = f"inline_silent_rules {cat}"
+        check.oblige("O14", construct, sig, False, finding=Finding("O14", construct, sig, f"{sig}: e.g. {msgs[0]} ({len(msgs)} of {n} combinations); the optimized parser then treats trivia, pairs or tags differently from optimizer=None", {"witness": msgs[0]}))
+
+
+def o13_fold_flags(check: Check, repo: Repo) -> None:
+    """A squashed choice must fold case exactly like the `^"..."` literal it replaces: CIString compiles with re.I
+    under the regex module's default VERSION0 (simple folding); a global VERSION1 / FULLCASE on the squashed
+    pattern turns every `(?i:...)` part into full case folding ("strasse" ~ "stra\u00dfe")."""
+    from .c12 import _flag_names
+
+    cls = repo.cls(CHOICE, "OptimizedChoice")
+    n_sites = 0
+    for fn in [x for x in cls.body if isinstance(x, ast.FunctionDef)]:
+        sites: list[tuple[str, ast.AST | None]] = []
+        for c in ast.walk(fn):
+            if isinstance(c, ast.Call) and ast.unparse(c.func) in ("re.compile", "regex.compile"):
+                sites.append(("compiles", c.args[1] if len(c.args) > 1 else next((k.value for k in c.keywords if k.arg == "flags"), None)))
+            if isinstance(c, ast.JoinedStr) and ast.unparse(c).startswith("f're.compile(") or (isinstance(c, ast.JoinedStr) and "re.compile(" in "".join(v.value for v in c.values if isinstance(v, ast.Constant))):
+                text = "".join(v.value if isinstance(v, ast.Constant) else "P" for v in c.values)
+                try:
+                    call = ast.parse(text, mode="eval").body
+                except SyntaxError:
+                    raise AnalysisError(f"{CHOICE}::OptimizedChoice.{fn.name}: emitted compile expression does not parse: {text}") from None
+                if isinstance(call, ast.Call):
+                    sites.append(("emits", call.args[1] if len(call.args) > 1 else next((k.value for k in call.keywords if k.arg == "flags"), None)))
+        for what, flags_e in sites:
+            n_sites += 1
+            flags = _flag_names(flags_e) if flags_e is not None else set()
+            if flags is None:
+                raise AnalysisError(f"{CHOICE}::OptimizedChoice.{fn.name}: flags `{ast.unparse(flags_e)}` are not a plain union of re flags")
+            bad = sorted(flags & {"VERSION1", "FULLCASE", "I"})
+            construct = f"{CHOICE}::OptimizedChoice.{fn.name}"
+            sig = "the squashed pattern is compiled with a flag that changes case folding"
+            check.oblige("O13", construct, f"{what} the pattern without a global folding flag" if not bad else sig, not bad,
+                         finding=Finding("O13", construct, sig, f"OptimizedChoice.{fn.name} {what} its pattern with {bad}: a `^\"...\"` alternative then matches other text than the CIString it replaces (optimizer=None)", {"flags": bad}))
+    check.count("squash_compile_sites", n_sites)
+
+
 def run(tier: str) -> Check:
     check = Check("C02", tier, EXPLANATION)
-    check.rules = ["O1", "O2", "O3", "O4", "O5", "O6(TERM)", "O7", "O8", "O9", "O10", "O11"]
+    check.rules = ["O1", "O2", "O3", "O4", "O5", "O6(TERM)", "O7", "O8", "O9", "O10", "O11", "O12", "O13", "O14"]
     check.assumptions = [
         "NOT decided: equivalence of the regex built by build_optimized_pattern with the choice it replaces beyond O2 and C12's fragment rules, and of SkipUntil's search with the loop it replaces in atomic context — equalities of languages of run-time constructed objects",
         "the unrolled forms are those of the specification table shared with C03/C04",
@@ -309,6 +380,9 @@ def run(tier: str) -> Check:
     repo, rep = fill(check, tier)
     o10_truthy(check, repo, rep)
     o11_skip_search(check, repo, rep)
+    o12_squash_semantics(check, repo, tier)
+    o13_fold_flags(check, repo)
+    o14_inline_semantics(check, repo)
     o1_unchecked(check, repo)
     o2_order(check, repo, tier)
     o3_trivia(check, repo)
@@ -317,9 +391,11 @@ def run(tier: str) -> Check:
     o7_unroll(check, repo)
     o8_inliners(check, repo)
     o9_skip_rule(check, repo)
-    check.floor("order_dependent_model_pairs", 500)
     check.floor("truthy_skeletons", 2)
     check.floor("skip_search_model_points", 300)
+    check.floor("squash_model_choices_rewritten", 500)
+    check.floor("squash_compile_sites", 2)
+    check.floor("inline_model_references", 40)
     check.floor("optional_helper_call_sites", 7)
     check.floor("unroll_arms", 5)
     check.floor("default_steps", 5)
